@@ -11,17 +11,46 @@
 (***************************************************************************)
 EXTENDS Random, TLC
 
+\* ---- reference-guided translation and codon alignment (C05), relational: exactly what the property states ----
+Ungap(s) == SelectSeq(s, LAMBDA c : c # GAP)
+NoGapAnywhere(o) == \A r \in 1..Len(o.rows) : \A i \in 1..Len(o.rows[r].s) : o.rows[r].s[i] # GAP
+AllowedTBR(pre, post, ref, frame, code) ==
+  /\ post.k = pre.k /\ NamesOf(post) = NamesOf(pre)
+  \* without gaps it coincides with plain translation, in every frame
+  /\ (NoGapAnywhere(pre) /\ Width(pre) - frame >= 3) =>
+        \A r \in 1..Len(pre.rows) : post.rows[r].s = TranslateS(pre.rows[r].s, frame, code)
+  \* frame 0: rectangular, and the reference row without gaps is a prefix of the translation of the ungapped reference
+  /\ frame = 0 =>
+        /\ \A r \in 1..Len(post.rows) : Len(post.rows[r].s) = Len(post.rows[1].s)
+        /\ Len(post.rows) > 0 => post.len = Len(post.rows[1].s)
+        /\ IsPrefix(Ungap(RowOfName(post, ref).s), TranslateS(Ungap(RowOfName(pre, ref).s), 0, code))
+\* threading nucleotide sequences onto a protein alignment: the documented failure conditions ...
+CodonAlignFits(aa, nt) ==
+  \A r \in 1..Len(aa.rows) :
+     /\ HasName(nt, aa.rows[r].n)
+     /\ LET need == 3 * Len(Ungap(aa.rows[r].s))  have == Len(RowOfName(nt, aa.rows[r].n).s)
+        IN need <= have /\ have - need <= 2
+\* ... and the promise when the protein rows are the translations of the nucleotide rows (else only the shape is judged)
+AllowedCodonAlign(aa, nt, new, code) ==
+  /\ new.k = "align" /\ new.al = NUCLEOTIDS /\ NamesOf(new) = NamesOf(aa)
+  /\ \A r \in 1..Len(aa.rows) :
+       LET ntrow == RowOfName(nt, aa.rows[r].n).s  out == new.rows[r].s IN
+       /\ Len(out) = 3 * Len(aa.rows[r].s)
+       /\ IsPrefix(Ungap(out), ntrow) /\ Len(ntrow) - Len(Ungap(out)) <= 2
+       /\ (NoGapAnywhere(nt) /\ Ungap(aa.rows[r].s) = TranslateS(ntrow, 0, code)) => TranslateS(out, 0, code) = aa.rows[r].s
+  /\ Len(aa.rows) > 0 => new.len = 3 * Width(aa)
+
 RelationalOps == {"ShuffleSequences", "Sample", "SampleSeqBag", "CleanNames", "TrimNames", "TrimNamesAuto",
                   "Compress", "Mask", "MaskOccurences", "MaskUnique", "MaxCharStats", "Consensus",
                   "ShuffleSites", "Swap", "SimulateRogue", "BuildBootstrap", "RandSubAlign", "Mutate",
-                  "AddGaps", "Recombine", "Rarefy"}
+                  "AddGaps", "Recombine", "Rarefy", "TranslateByReference", "CodonAlign"}
 \* operations that never change any existing object (queries and copy-producing operations, C19)
 ReadOnlyOps == {"Clone", "CloneSeqBag", "Unalign", "Sample", "SampleSeqBag", "SubAlign", "SelectSites",
                 "InverseCoordinates", "InversePositions", "RefCoordinates", "RefSites", "Split", "Transpose",
                 "MaxCharStats", "Consensus", "CharStats", "CharStatsSite", "CharStatsSeq", "UniqueCharacters",
                 "Entropy", "NbVariableSites", "InformativeSites", "AvgAllelesPerSite", "Pssm", "CountDifferences",
                 "NumGapsUnique", "NumMutationsUnique", "NumMutRef", "ListMutRef", "CountProfile",
-                "BuildBootstrap", "RandSubAlign", "Rarefy", "DetectAlphabet", "Identical", "Query", "New"}
+                "BuildBootstrap", "RandSubAlign", "Rarefy", "DetectAlphabet", "Identical", "Query", "New", "CodonAlign"}
 
 Ret(r) == Res(FALSE, r.o, <<>>, r.ret, TRUE)
 Q(o, ret) == Res(FALSE, o, <<>>, ret, TRUE)            \* a query: receiver unchanged, returns ret
@@ -164,6 +193,8 @@ ErrRel(h, op, recv, a) ==      \* must the call fail?
     [] op = "Swap" -> a.rp < 0 \/ a.rp > a.rq
     [] op = "RandSubAlign" -> RandSubErr(o, a.len)
     [] op = "Recombine" -> RecombineErr(a.pp, a.pq, a.lp, a.lq)
+    [] op = "TranslateByReference" -> a.ref = <<>> \/ ~HasName(o, a.ref) \/ o.al # NUCLEOTIDS \/ ~ValidCode(a.code)
+    [] op = "CodonAlign" -> o.al # AMINOACIDS \/ h[a.nt].al # NUCLEOTIDS \/ ~CodonAlignFits(o, h[a.nt])
     [] OTHER -> FALSE
 Allowed(h, op, recv, a, post, new, ret) ==
   LET pre == h[recv] IN
@@ -196,6 +227,8 @@ Allowed(h, op, recv, a, post, new, ret) ==
             ELSE AllowedAddGaps(pre, post, IntOfFrac(a.pp, a.pq, Len(pre.rows)), IntOfFrac(a.lp, a.lq, Width(pre)))
     [] op = "Recombine" -> AllowedRecombine(pre, post) /\ new = <<>>
     [] op = "Rarefy" -> post = pre /\ Len(new) = 1 /\ AllowedRarefy(pre, new[1], {a.counts[k].n : k \in 1..Len(a.counts)})
+    [] op = "TranslateByReference" -> new = <<>> /\ AllowedTBR(pre, post, a.ref, a.frame, a.code)
+    [] op = "CodonAlign" -> post = pre /\ Len(new) = 1 /\ AllowedCodonAlign(pre, h[a.nt], new[1], a.code)
 
 \* ---- duplicate-name policy of the objects after a step (not observable through the API) ------------
 PolAfter(h, op, recv, a, n) ==     \* n = number of objects afterwards
